@@ -65,8 +65,12 @@ def drive_models(rep, rng, count):
     from opfython.models.supervised import SupervisedOPF
     from opfython.models.unsupervised import UnsupervisedOPF
 
+    import arcsrec
+
     heaprec.install()
+    arcsrec.install()
     start = len(heaprec.LIVE)
+    astart = len(arcsrec.LIVE)
     sizes = [4, 5, 6, 8, 8, 12, 12, 16, 24]
     mets = ["euclidean", "manhattan", "squared_euclidean", "log_squared_euclidean", "chebyshev", "canberra"]
     calls = raised = 0
@@ -127,7 +131,7 @@ def drive_models(rep, rng, count):
             traces.append(t)
     for why, cnt in skipped.items():
         rep.skip("history_not_judgeable: " + why, cnt)
-    return traces
+    return traces, arcsrec.LIVE[astart:]
 
 
 def testsuite_traces(rep):
@@ -136,7 +140,7 @@ def testsuite_traces(rep):
     src_tests = os.path.join(H.REPO, "tests")
     if not os.path.isdir(src_tests):
         rep.skip("repository_has_no_tests_directory")
-        return []
+        return [], []
     wd = H.subdir("x05-testsuite")
     for name in ("tests", "data"):
         shutil.rmtree(os.path.join(wd, name), ignore_errors=True)
@@ -158,7 +162,36 @@ def testsuite_traces(rep):
     rep.cov["testsuite_tail"] = p.stdout.strip().splitlines()[-1][:120] if p.stdout.strip() else ""
     for why, cnt in body["skipped"].items():
         rep.skip("testsuite_history_not_judgeable: " + why, cnt)
-    return body["traces"]
+    return body["traces"], body.get("arcs", [])
+
+
+def judge_arc_calls(rep, calls, tag, limit):
+    """create_arcs calls the library made itself (driven fits / the repository's tests) -> KnnTrace, through C12's own judge."""
+    import numpy as np
+    import opfython.utils.constants as c
+
+    import c12
+
+    items, seen = [], {}
+    for a in calls:
+        D = np.array(a["D"], dtype=float)
+        if not np.all(np.isfinite(D)) or np.any(D < 0):
+            rep.skip("arcs_call_with_non_finite_or_negative_distance")
+            continue
+        if not np.array_equal(D, D.T):
+            rep.skip("arcs_call_with_asymmetric_distances")
+            continue
+        if seen.get(a["n"], 0) >= limit:
+            continue
+        seen[a["n"]] = seen.get(a["n"], 0) + 1
+        tr = c12.arcs_trace(np, c, D, a["k"], a["adj"], a["radius"], a["maxd"], a["bound"], 0.0)
+        if tr is None:
+            rep.skip("arcs_call_not_rankable")
+            continue
+        items.append(({"mode": "metric", "metric": tag, "n": a["n"]}, a["k"], tr))
+    if items:
+        c12.judge_arcs(rep, items)
+    return len(items)
 
 
 def run(tier, seed):
@@ -166,12 +199,15 @@ def run(tier, seed):
     H.import_opfython()
     rng = random.Random(seed * 1000003 + 505)
     thorough = tier == "thorough"
-    a = drive_models(rep, rng, 600 if thorough else 150)
+    a, arcs_a = drive_models(rep, rng, 600 if thorough else 150)
     rep.cov["histories_from_driven_models"] = len(a)
     na = judge(rep, a, "models")
-    b = testsuite_traces(rep)
+    b, arcs_b = testsuite_traces(rep)
     rep.cov["histories_from_the_repository_tests"] = len(b)
     nb = judge(rep, b, "testsuite") if b else 0
+    # the k-NN graphs behind the same executions: every create_arcs call the fits / the tests made, judged by KnnTrace (C12's clauses)
+    rep.cov["create_arcs_calls_from_driven_models"] = judge_arc_calls(rep, arcs_a, "driven-models", 12 if thorough else 4)
+    rep.cov["create_arcs_calls_from_the_repository_tests"] = judge_arc_calls(rep, arcs_b, "repository-tests", 6 if thorough else 3)
     rep.cov["rejected"] = na + nb
     by = {}
     for t in a + b:
